@@ -41,7 +41,7 @@ def ref_tokenize(text):
         return 'malformed'
     parts.append(cur)
     for p in parts:
-        s = p.strip(' ')
+        s = p.strip(' \t')          # blanks: space and TAB
         if s == '':
             items.append(None)
         elif s.startswith('"'):
@@ -405,6 +405,17 @@ def gen_cases(tier, seed):
                 irregular.append(t)
             else:
                 good.append(t)
+    # the same texts with TABs as blanks (all blanks, or every other one)
+    tabbed = []
+    for t in good:
+        if ' ' in t:
+            tabbed.append(t.replace(' ', '\t'))
+            alt = ''.join(('\t' if (ch == ' ' and k % 2) else ch) for k, ch in enumerate(t))
+            if alt != t:
+                tabbed.append(alt)
+    if tier == 'quick':
+        tabbed = r.sample(tabbed, min(len(tabbed), 900))
+    good = good + sorted(set(tabbed))
     cs = []
     r.shuffle(good)
     B = 30
